@@ -351,6 +351,7 @@ func TestCheck(t *testing.T) {
 		r.Set("executions_"+c, n.Load())
 	}
 	twoLogs(t, r)
+	sqlDrivers(r)
 	r.Set("trivial_outcomes_not_counted", trivial.Load())
 	r.Set("executions", exec.Load())
 	r.Set("decision_points", pts.Load())
